@@ -289,6 +289,10 @@ fn dir_remove_inode_contract() {
 }
 
 fn scan_body(plan: [u8; 4], fixed_errno: i32) {
+    scan_body_n(plan, fixed_errno, PATH_L)
+}
+
+fn scan_body_n(plan: [u8; 4], fixed_errno: i32, max_len: usize) {
     install_close_model();
     reset(3);
     let d = given_fd(true);
@@ -302,8 +306,8 @@ fn scan_body(plan: [u8; 4], fixed_errno: i32) {
         k.fixed_errno = fixed_errno;
     }
     let buf: [u8; PATH_L] = kani::any();
-    let len: usize = kani::any();
-    kani::assume(len <= PATH_L);
+    let len: usize = if max_len == 1 { 1 } else { kani::any() };
+    kani::assume(len <= PATH_L && len <= max_len);
     let nameb = &buf[..len];
     kani::assume(!refused(nameb));
     let res = remove_all(borrow_fd(d), Path::new(OsStr::from_bytes(nameb)));
